@@ -52,6 +52,15 @@ func c03EdgeSets() []c03EdgeSet {
 				c03EdgeRule("none3", "/m3/:x", []string{"ALL", "!GET", "!HEAD", "!POST", "!PUT", "!PATCH", "!DELETE", "!CONNECT", "!OPTIONS", "!TRACE"}, "")},
 			Reqs: []c03EdgeReq{{"GET", "/m1/v", "default", nil}, {"POST", "/m1/v", "default", nil}, {"POST", "/m2/v", "default", nil}, {"GET", "/m2/v", "default", nil},
 				{"GET", "/m3/v", "default", nil}, {"PROPFIND", "/m3/v", "default", nil}}},
+		{Name: "one rule lists the same path expression twice with different path_params (alternatives)",
+			Rules: func() []rconfig.Rule {
+				rl := c03EdgeRule("alt", "/tw/:team/:name", nil, "", exact("team", "team1"))
+				rl.Matcher.Routes = append(rl.Matcher.Routes, rconfig.Route{Path: "/tw/:team/:name", PathParams: []rconfig.ParameterMatcher{{Name: "team", Type: "regex", Value: "^team[23]$"}}},
+					rconfig.Route{Path: "/tw/:team/:name", PathParams: []rconfig.ParameterMatcher{{Name: "name", Type: "exact", Value: "any-team"}}})
+				return []rconfig.Rule{rl}
+			}(),
+			Reqs: []c03EdgeReq{{"GET", "/tw/team1/x", "alt", map[string]string{"team": "team1", "name": "x"}}, {"GET", "/tw/team3/y", "alt", map[string]string{"team": "team3", "name": "y"}},
+				{"GET", "/tw/team9/any-team", "alt", map[string]string{"team": "team9", "name": "any-team"}}, {"GET", "/tw/team9/z", "default", nil}}},
 		{Name: "path text equal to a helper string of the implementation",
 			Rules: []rconfig.Rule{c03EdgeRule("off", "/po/:v", nil, "off"), c03EdgeRule("nd", "/pn/:v", nil, "no_decode"), c03EdgeRule("ndp", "/pp/:v", nil, "no_decode", exact("v", "%2F"))},
 			Reqs: []c03EdgeReq{{"GET", "/po/a$$$escaped-slash$$$b", "off", map[string]string{"v": "a$$$escaped-slash$$$b"}},
